@@ -291,7 +291,7 @@ def gen_cases(rng, n, ninputs=3, features=FEATURES):
 
 
 # ----------------------------------------------------------------------------- directed programs
-def directed(rng):
+def directed(rng, seed=0, nstrata=3):
     """Hand-written minimal programs for the constructs the property names (calls with/without intents,
     WHERE/ELSEWHERE, SELECT CASE, nested blocks, zero-trip loops, one-armed conditionals), so that every run
     exercises them whatever the seed draws.  They are judged exactly like the generated ones."""
@@ -364,10 +364,45 @@ def directed(rng):
         'raw-associate-selector-read': [assign(V('t2'), add(V('n'), N(2))), {'s': 'assoc', 'names': ['z1', 'z3'], 'targets': [V('t1'), add(V('t2'), N(1))], 'body': [assign(V('z1'), N(2))]}, assign(V('k'), V('t1'))],
         'raw-across-conditional-call': [assign(V('t1'), N(3)), callst('h6', V('t1'), V('n')), assign(V('k'), V('t1'))],
     }
+    import random
+    srng = random.Random(7919 + seed)
+    sub = lambda i: op('sum', V(i), N(0)) if srng.random() < 0.3 else V(i)
+    for q in range(nstrata):
+        x, y = srng.sample(['t1', 't2'], 2)
+        # stratum bound-def: a DO bound (start / stop / step) mentions a variable that the loop body assigns; bounds are
+        # evaluated on entry, so the variable is read before written by the loop; no earlier read of it
+        pre = [assign(V(x), call('mod', call('abs', add(V('n'), N(srng.randint(0, 3)))), N(4)))] if srng.random() < 0.5 else []
+        shape = srng.choice(['stop', 'stop', 'start', 'step'])
+        lo, hi, st = N(1), V(x), None
+        if shape == 'start':
+            lo, hi = call('max', V(x), N(0)), N(4)
+        elif shape == 'step':
+            lo, hi, st = N(0), N(4), call('max', call('abs', V(x)), N(1))
+        elif srng.random() < 0.5:
+            hi = call('min', V(x), N(4))
+        inner = [assign(V('k'), call('mod', add(V('k'), V('i')), N(17))), assign(V(x), srng.choice([N(0), V('m'), add(V('i'), N(1))]))]
+        if srng.random() < 0.5:
+            inner.reverse()
+        loop = do_('i', lo, hi, inner, st)
+        wrap = srng.choice(['none', 'if', 'do'])
+        body = pre + ([loop] if wrap == 'none' else [if_(cmp_('>', V('m'), N(-9)), [loop])] if wrap == 'if' else [do_('j', N(1), N(2), [assign(V(x), call('mod', add(V('j'), V('n')), N(4))), loop])])
+        progs[f'stratum-bound-def-{q}'] = body + [assign(V('k'), add(V('k'), V(x)))]
+        # stratum case-later-read: SELECT CASE inside a loop, the variable is written in one CASE branch and read in a later
+        # CASE / DEFAULT branch (another iteration); no earlier read of it in the loop body
+        wr = assign(V(x), srng.choice([el('ia', sub('i')), add(V('i'), V('m')), N(srng.randint(1, 9))]))
+        rd1 = assign(el('ic', V('i')), call('mod', add(V(x), N(1)), N(13)))
+        rd2 = assign(V('k'), call('mod', add(V('k'), V(x)), N(19)))
+        variant = srng.choice(['case+default', 'case', 'default', 'nested'])
+        if variant == 'nested':
+            rd1 = if_(cmp_('>', V('i'), N(0)), [rd1])
+        cases = [(0, 0, [wr]), (1, 1, [rd1] if variant != 'default' else [assign(V('k'), add(V('k'), N(1)))])]
+        dflt = [rd2] if variant in ('case+default', 'default', 'nested') else [assign(V(y), V('i'))]
+        selc = select_(call('mod', V('i'), N(3)), cases, dflt)
+        progs[f'stratum-case-later-read-{q}'] = [do_('i', N(0), N(4), [selc] + ([assign(V(y), add(V('i'), N(2)))] if srng.random() < 0.4 else []))]
     out = []
     for name, body in progs.items():
         prog = kernel(body)
-        prog['meta'] = {'directed': name}
+        prog['meta'] = {'directed': name, 'stratum': name.rsplit('-', 1)[0][8:] if name.startswith('stratum-') else ''}
         inputs = []
         for c, (n, m, fl) in enumerate([(0, 1, True), (1, 2, False), (3, 0, True), (5, 3, False), (2, -2, True)]):
             inputs.append({'n': F.val_int(n), 'm': F.val_int(m), 'flag': F.val_log(fl), 't1': F.val_int(c + 1), 't2': F.val_int(4 - c),
@@ -677,6 +712,26 @@ def earlier_definer(ix, sets, top, leaf, var):
     return None
 
 
+def later_case_read(ix, sets, node, leaf, var):
+    """The SELECT CASE (at or below `node`, above `leaf`) whose recorded uses lack `var` although the read happens in
+    one of its branches with no recorded definition before it IN THAT BRANCH, while a textually earlier branch
+    defines `var`.  None if there is no such construct."""
+    for sel in [node] + (ix.path(node, leaf) or []):
+        if ix.kind(sel) != 'select' or sel == leaf:
+            continue
+        below = ix.path(sel, leaf)
+        if not below or var in sets[sel - 1]['u']:
+            continue
+        arm = ix.info[below[0]]['arm']
+        st = ix.info[sel]['s']
+        j = arm[1] if arm[0] == 'cases' else len(st['cases'])
+        if earlier_definer(ix, sets, sel, leaf, var) is not None:
+            continue
+        if any(var in sets[a['id'] - 1]['d'] for c in st['cases'][:j] for a in flat(c['body'])):
+            return sel
+    return None
+
+
 def classify0(ix, sets, miss):
     """Normal-form key of one miss <<clause, node, var, leaf, aux>> (names abstracted to roles)."""
     cl, node, var, leaf, aux = miss
@@ -693,9 +748,15 @@ def classify0(ix, sets, miss):
         return f'defines:{lk}-write-not-recorded:{role}' if var not in leafsets['d'] else f'defines:lost-between-{lk}-and-{nk}:{role}'
     if cl == 'U':
         if var not in leafsets['u']:
+            if lk == 'do' and var in leafsets['d'] and var in expr_vars([ix.info[leaf]['s'][b] for b in ('lo', 'hi', 'st')]):
+                # DO bounds are evaluated once, on entry: a bound variable the body assigns IS read before written
+                return f'uses:loop-bound-read-before-body-def:{role}'
             if lk == 'call':
                 return f'uses:call-arg-intent-{ix.call_intent(leaf, var)}:{role}'
             return f"uses:{'associate-selector' if lk == 'assoc' else lk}-read-not-recorded:{role}"
+        if later_case_read(ix, sets, node, leaf, var) is not None:
+            # CASE branches are alternatives: a definition in one branch never kills a use in another
+            return f'uses:read-in-later-case-branch:{role}'
         if aux == 'p':
             kd = earlier_definer(ix, sets, node, leaf, var)
             return f"uses:read-after-partial-array-def:by-{ix.nokill(kd, var, sets) if kd else 'same-statement'}"
@@ -730,6 +791,8 @@ def classify0(ix, sets, miss):
             return f'carried:{lk}-read-not-recorded:{role}' if lk != 'call' else f'carried:call-arg-intent-{ix.call_intent(leaf, var)}:{role}'
         if var not in sets[node - 1]['d']:
             return f'carried:write-not-recorded:{role}'
+        if later_case_read(ix, sets, node, leaf, var) is not None:
+            return f'carried:read-in-later-case-branch:{role}'
         kd = earlier_definer(ix, sets, node, leaf, var)
         if aux == 'p' or (kd is not None and role == 'array'):
             return f"carried:{nk}:array-element-read-after-def-of-other-element:by-{ix.nokill(kd, var, sets) if kd else 'same-statement'}"
@@ -882,8 +945,17 @@ def cover(ctx, label, clauses, cases, progs, runs):
                     'sets_by_statement_id': progs[judged[-1]['idx']]['sets'][:12]})
     if not judged:
         raise MachineryError('no run was judged')
+    strata = {}
+    for r in judged:
+        st = (cases[r['idx']][0].get('meta') or {}).get('stratum')
+        if st:
+            strata[st] = strata.get(st, 0) + 1
+    ctx.cover[f'{label}_stratum_runs'] = strata
     if ctx.replay:
         return          # a single replayed program need not contain every construct
+    for st in ('bound-def', 'case-later-read'):
+        if strata.get(st, 0) < 6:
+            raise MachineryError(f'vacuous: stratum {st} has only {strata.get(st, 0)} judged runs')
     if 'D' in clauses and (tot['reads'] == 0 or tot['writes'] == 0 or tot['windows'] == 0):
         raise MachineryError(f'vacuous: {tot}')
     if 'C' in clauses and (tot['iters'] == 0 or tot['points'] == 0):
